@@ -58,6 +58,18 @@ def atomic_replace(ctx, rule):
            "the file opened for writing is not the live catalog path" if creates and not inplace else
            "the live catalog is opened with truncation and rewritten in place: a crash before the fsync loses every table",
            (inplace or creates or [None])[0].loc() if (inplace or creates) else f.loc())
+    # the replacement file must start empty: File::create truncates; an OpenOptions chain has to ask for it (truncate(true) or
+    # create_new(true)).  A leftover temp file from an interrupted save is otherwise only partly overwritten and its stale tail is
+    # renamed into place with the new head.
+    oo = [c for c in creates if c.name.endswith("fs::OpenOptions::open")]
+    if oo:
+        trunc = [c for c in f.calls if c.name.endswith("fs::OpenOptions::truncate") or c.name.endswith("fs::OpenOptions::create_new")]
+        okt = bool(trunc) and all(const_true(f, c) for c in trunc)
+        ctx.ob(rule + ".TMP-STARTS-EMPTY", f.id, okt, "the replacement file is opened with truncate(true)/create_new(true)" if okt else
+               "the replacement file is opened with OpenOptions without truncation: bytes of an earlier, longer temp file survive behind the new "
+               "catalog and are renamed into place", oo[0].loc())
+    else:
+        ctx.ob(rule + ".TMP-STARTS-EMPTY", f.id, bool(creates), "the replacement file is created with File::create (truncating)", f.loc())
     ok_r = bool(renames) and all(param_origin(f, c.args[1]) == live for c in renames)
     ctx.ob(rule + ".RENAME-INTO-PLACE", f.id, ok_r, "the new file is renamed onto the live path" if ok_r else
            "no fs::rename onto the live catalog path", f.loc())
@@ -303,3 +315,12 @@ def arg_order(ctx, rule, scope_pred, min_sites=5):
                    "arguments %s and %s are swapped relative to the callee's parameters (%s, %s) — both have type %s" %
                    (actual[bad[0][0]], actual[bad[0][1]], pn[bad[0][0]], pn[bad[0][1]], tys[bad[0][0]]), c.loc())
     ctx.floor(rule + ".sites", n, min_sites)
+
+
+def const_true(f, c):
+    """second argument of a builder call is the constant `true`"""
+    from paths import const_value
+    if len(c.args) < 2:
+        return False
+    v = const_value(f, c.args[1])
+    return v == 1 or v is True
